@@ -290,6 +290,8 @@ type Explorer struct {
 	Diverged   []string
 	// Shard/NShards partition the first-level deviations among worker processes.
 	Shard, NShards int
+	// ShardOffset rotates the assignment of first-level points to shards (so that different scenarios load different workers).
+	ShardOffset int
 	// SecondLevel restricts deviations beyond the first to points whose site it accepts (nil: all).
 	SecondLevel func(site string) bool
 	// SecondArity caps the number of alternatives tried at deviations beyond the first (0: no cap). The menu is
@@ -334,7 +336,7 @@ func (x *Explorer) explore(prefix []int, deviations int) {
 		x.Visit(choices, e.Points, obs)
 	}
 	for i := len(prefix); i < len(e.Points); i++ {
-		if deviations == 0 && x.NShards > 1 && i%x.NShards != x.Shard {
+		if deviations == 0 && x.NShards > 1 && (i+x.ShardOffset)%x.NShards != x.Shard {
 			continue
 		}
 		if deviations > 0 && x.SecondLevel != nil && !x.SecondLevel(e.Points[i].Site) {
